@@ -200,7 +200,10 @@ def kalman_bounded(vc):
         A = rng.normal(size=(n, n))
         return (A @ A.T + n * 0.3 * np.eye(n)) * scale
     F = rng.normal(size=(N, N)) * 0.6
-    x, P, Q = rng.normal(size=N) * 10, spd(N), spd(N, 0.1)
+    # units: the state may be small in magnitude (angles in radians, km/s, covariances of 1e-10 and below) and simultaneous observations may be in very different units (mm next to km)
+    su = 10.0 ** vc.int("log10_state_unit", -6, 1)
+    x, P, Q = rng.normal(size=N) * 10 * su, spd(N) * su ** 2, spd(N, 0.1) * su ** 2
+    close = lambda A, B, unit: bool(np.allclose(A, B, rtol=1e-5, atol=1e-5 * unit))
     dyn = _NS(propagate=lambda t0, tf, X, scheduled_events=None: F @ X)
     # another estimate's filter, built first in the same process with the same dimension, alpha and beta but its own kappa / noise / resampling mode: a filter's tuning is its own
     UnscentedKalmanFilter(2, 0.0, x.copy() + 1.0, P.copy() * 2.0, dyn, Q.copy() * 3.0, None, False, False, not resample, alpha, beta, kappa + 1.7)
@@ -209,7 +212,7 @@ def kalman_bounded(vc):
     ok = {k: True for k in ("predict", "update", "psd", "noobs")}
     vc.ensure("B-C06-seq.weights", abs(f.mean_weight.sum() - 1) < 1e-9)
     kx, kP = x.copy(), P.copy()
-    psd = lambda M, ref: bool(np.allclose(M, M.T, atol=1e-8 * (1 + abs(ref).max()))) and np.linalg.eigvalsh((M + M.T) / 2).min() > -1e-7 * (1 + abs(ref).max())
+    psd = lambda M, ref: bool(np.allclose(M, M.T, rtol=0, atol=1e-8 * abs(ref).max())) and np.linalg.eigvalsh((M + M.T) / 2).min() > -1e-4 * abs(ref).max()
     import copy
     for step in range(3):
         # the way a run does it: a worker predicts / updates a COPY and the result object is applied to the agent's filter (EstPredictRegistration, EstUpdateRegistration);
@@ -222,12 +225,13 @@ def kalman_bounded(vc):
             f.predict(60.0 * (step + 1))
         px, FPF = F @ kx, F @ kP @ F.T
         pP = FPF + Q
-        ok["predict"] &= bool(np.allclose(f.pred_x, px, rtol=1e-6, atol=1e-6) and np.allclose(f.pred_p, pP, rtol=1e-6, atol=1e-6))
+        ok["predict"] &= close(f.pred_x, px, 0.1 * su) and close(f.pred_p, pP, 0.1 * su ** 2)
         n_obs = int(rng.integers(0, 5))
         obs, Hs, Rs, ys = [], [], [], []
         for _ in range(n_obs):
             M = int(rng.integers(1, 4))
-            H, R, y = rng.normal(size=(M, N)), spd(M, 0.5), rng.normal(size=M) * 10
+            ou = 10.0 ** int(rng.integers(-3, 4))   # this observation's unit
+            H, R, y = rng.normal(size=(M, N)) * (ou / su), spd(M, 0.5) * ou ** 2, rng.normal(size=M) * 10 * ou
 
             class Meas:
                 angular_values = [IsAngle.NOT_ANGLE] * M
@@ -238,7 +242,7 @@ def kalman_bounded(vc):
                 def calculateMeasurement(self, sensor_eci, state, utc, noisy=False):
                     vals = self.H @ state + sensor_eci  # (the predicted measurement depends on where the observing sensor was: each observation's OWN sensor state)
                     return {f"c{i}": vals[i] for i in range(len(vals))}
-            bias = rng.normal(size=M) * 5
+            bias = rng.normal(size=M) * 5 * ou
             # ids: pairs of observations share a sensor id (one sensor observing twice, from two positions) and ids descend along the stack
             obs.append(_NS(julian_date=2459000.5 + len(obs) * 1e-4, sensor_eci=bias, measurement=Meas(H), r_matrix=R, measurement_states=y + bias, sensor_id=900 - len(obs) // 2, target_id=7))
             Hs.append(H); Rs.append(R); ys.append(y)
@@ -249,7 +253,7 @@ def kalman_bounded(vc):
         else:
             f.update(obs)
         if n_obs == 0:
-            ok["noobs"] &= bool(np.allclose(f.est_x, px, rtol=1e-6, atol=1e-6) and np.allclose(f.est_p, f.pred_p))
+            ok["noobs"] &= close(f.est_x, px, 0.1 * su) and bool(np.array_equal(f.est_p, f.pred_p))
             kx, kP = px, pP
         else:
             H = np.concatenate(Hs, axis=0)
@@ -264,8 +268,10 @@ def kalman_bounded(vc):
             K = prior @ H.T @ np.linalg.inv(S)
             kx = px + K @ (y - H @ px)
             kP = pP - K @ S @ K.T
-            ok["update"] &= bool(np.allclose(f.est_x, kx, rtol=1e-5, atol=1e-5) and np.allclose(f.est_p, kP, rtol=1e-5, atol=1e-5)
-                                 and np.allclose(f.innov_cvr, S, rtol=1e-5, atol=1e-5))
+            sd = np.sqrt(np.diag(S))
+            # (mean / covariance: the units differ by up to 1e6 between observations, so the reference itself carries rounding of about eps * cond(S) ~ 1e-4)
+            ok["update"] &= bool(np.allclose(f.est_x, kx, rtol=2e-3, atol=2e-3 * su) and np.allclose(f.est_p, kP, rtol=2e-3, atol=2e-3 * su ** 2)
+                                 and np.all(np.abs(f.innov_cvr - S) <= 1e-5 * np.outer(sd, sd)))
             if resample:
                 ok["psd"] &= psd(f.est_p, pP) and psd(f.pred_p - f.est_p, pP)
         ok["psd"] &= psd(f.pred_p, pP)
